@@ -1,7 +1,7 @@
 """C05 - optimisation options never change solvability or the optimal objective."""
 import collections
 
-from .. import world, drivers, preds, sweep, common
+from .. import runner, world, drivers, preds, sweep, common
 
 SPEC = {
     "id": "C05",
@@ -130,6 +130,7 @@ def _offwalk(case):
                 viol.append({"kind": "reference_exception", "msg": f"{cls}({case['offwalk']}, ignored={ign}, additional end={extra_end}, all optimisations off) raised {ref_obs['exc']}"})
                 continue
             for aname, fl in [assignments[0]] + assignments[2:]:
+                runner.kick()
                 c_cur = dict(inst, cls=cls, kw=dict(kw0, optimization_options=dict(fl)))
                 obs = drivers.observe(c_cur)
                 tags["runs"] += 1
@@ -150,6 +151,7 @@ def _hand_generic(case, inst, kw0, cls, rkey, extra):
     ref_obs = drivers.observe(c_ref)
     ref = ("exc", ref_obs["exc_type"]) if ref_obs["exc"] else _objective(cls, ref_obs, rkey)
     for aname, fl in [assignments[0]] + assignments[2:] + extra:
+        runner.kick()
         c_cur = dict(inst, cls=cls, kw=dict(kw0, optimization_options=dict(fl)))
         obs = drivers.observe(c_cur)
         tags["runs"] += 1
@@ -185,6 +187,7 @@ def _hand_mfd(case):
     ref_obs = drivers.observe(c_ref)
     ref = ("exc", ref_obs["exc_type"]) if ref_obs["exc"] else _objective(cls, ref_obs, "paths")
     for aname, fl in [assignments[0]] + assignments[2:] + extra:
+        runner.kick()
         c_cur = dict(inst, cls=cls, kw=dict(kw0, optimization_options=dict(fl)))
         obs = drivers.observe(c_cur)
         tags["runs"] += 1
@@ -200,6 +203,7 @@ def _hand_mfd(case):
 
 
 def _really_differs(cls, rkey, c_ref, c_cur, ref, cur, tags):
+    runner.kick()
     """trusted-base guard: HiGHS presolve has declared feasible k-models infeasible / returned sub-optimal points on the pinned highspy
     (a 6-node node-weighted two-cycle instance: kFlowDecompCycles(k=2) 'kInfeasible' with presolve, optimal without). Two answers that
     differ are therefore both asked again with the documented solver option presolve=off; only a difference that persists is reported."""
